@@ -39,10 +39,15 @@ end AList
 theorem markerMsg_eq {F : Type} (m : Marker F) :
     markerMsg m = (fmt6 m.amount.toF64).map
       (fun x => [(m.recipient : Int), x, m.nonce] ++ m.blobbers.map (fun b => Int.ofNat b)) := by
-  unfold markerMsg
-  simp only [markerArgs, markerVerbs, List.zip_cons_cons, List.zip_nil_right, List.mapM_cons, List.mapM_nil, argVals,
-    if_true, bind, Option.bind, pure]
-  cases fmt6 m.amount.toF64 <;> simp
+  have h : ∀ o : Option Int,
+      (([(MField.Recipient, Verb.s), (.FreeTokens, .f), (.Nonce, .d), (.Blobbers, .s)].mapM
+        (fun p => match p with
+          | (MField.FreeTokens, Verb.f) => o.map (fun x => [x])
+          | q => argVals m q)).map List.flatten) =
+      o.map (fun x => [(m.recipient : Int), x, m.nonce] ++ m.blobbers.map (fun b => Int.ofNat b)) := by
+    intro o
+    cases o <;> simp [argVals]
+  exact h (fmt6 m.amount.toF64)
 
 theorem bind_ok {ε α β : Type} (x : Except ε α) (f : α → Except ε β) (b : β) :
     (x >>= f) = .ok b ↔ ∃ a, x = .ok a ∧ f a = .ok b := by
@@ -55,6 +60,8 @@ theorem bind_unit_ok {ε β : Type} (x : Except ε Unit) (f : Unit → Except ε
   cases x with
   | error e => simp [bind, Except.bind]
   | ok a => simp [bind, Except.bind]
+
+theorem exists_unit' {p : Unit → Prop} : (∃ u, p u) ↔ p () := ⟨fun ⟨(), h⟩ => h, fun h => ⟨(), h⟩⟩
 
 theorem need_ok (c : Bool) (e : Err) (u : Unit) : need c e = .ok u ↔ c = true := by
   cases c <;> simp [need]
@@ -72,7 +79,7 @@ theorem validate_ok {cr : Crypto F} {a : Assigner} {m : Marker F} {value : Nat} 
     verifySig cr a m = true ∧ a.redeemed + value ≤ a.totLimit ∧ a.redeemed + value < Coin.U64 ∧
       value ≤ a.indLimit ∧ m.nonce ∉ a.nonces := by
   unfold validate at h
-  simp only [bind_unit_ok, bind_ok, need_ok, mapErr_ok, Coin.addCoin_ok_iff, decide_eq_true_eq, Bool.not_eq_true',
+  simp only [bind_ok, need_ok, exists_unit', mapErr_ok, Coin.addCoin_ok_iff, decide_eq_true_eq, Bool.not_eq_true',
     decide_eq_false_iff_not] at h
   obtain ⟨hs, nt, ⟨hnt, hlt⟩, htot, hind, hn⟩ := h
   subst hnt
@@ -98,7 +105,7 @@ structure GrantOk (cr : Crypto F) (bok : List Nat → Bool) (s : St) (sender : N
 theorem freeAlloc_inv {cr : Crypto F} {bok : List Nat → Bool} {s s' : St} {sender : Nat} {m : Marker F}
     (h : freeAlloc cr bok s sender m = .ok s') : GrantOk cr bok s sender m s' := by
   unfold freeAlloc at h
-  simp only [bind_unit_ok, bind_ok, need_ok, getOr_ok, mapErr_ok, Coin.addCoin_ok_iff, Coin.minusCoin_ok_iff,
+  simp only [bind_ok, need_ok, exists_unit', getOr_ok, mapErr_ok, Coin.addCoin_ok_iff, Coin.minusCoin_ok_iff,
     decide_eq_true_eq, pure, Except.pure, Except.ok.injEq] at h
   obtain ⟨hrec, a, ha, coin, hcoin, hval, nr, ⟨hnr, hnrlt⟩, readT, hread, writeT, ⟨hw, hwle⟩, hbok, hown, hcost, pool, ⟨hpool, hpoollt⟩, hs⟩ := h
   subst hnr; subst hw; subst hpool
@@ -106,17 +113,37 @@ theorem freeAlloc_inv {cr : Crypto F} {bok : List Nat → Bool} {s s' : St} {sen
 
 end
 
+/-- the record a registration starts from: the stored one, or a fresh one. -/
+def baseRecord (s : St) (name pk : Nat) : Assigner := (aGet s.assigners name).getD ⟨pk, 0, 0, 0, []⟩
+
 /-- a successful registration. -/
 theorem addAssigner_inv {s s' : St} {sender name pk : Nat} {ind tot : Dec} (h : addAssigner s sender name pk ind tot = .ok s') :
     sender = s.cfg.owner ∧ ∃ newTot newInd, limitCoin tot = .ok newTot ∧ newTot ≤ s.cfg.maxTot ∧
       limitCoin ind = .ok newInd ∧ newInd ≤ s.cfg.maxInd ∧
-      s' = { s with assigners := aSet s.assigners name
-        { (aGet s.assigners name).getD { pk := pk, indLimit := 0, totLimit := 0, redeemed := 0, nonces := [] } with
-          pk := pk, totLimit := newTot, indLimit := newInd } } := by
+      s' = { s with assigners := aSet s.assigners name { baseRecord s name pk with pk := pk, totLimit := newTot, indLimit := newInd } } := by
   unfold addAssigner at h
-  simp only [bind_unit_ok, bind_ok, need_ok, mapErr_ok, decide_eq_true_eq, pure, Except.pure, Except.ok.injEq] at h
+  simp only [bind_ok, need_ok, exists_unit', mapErr_ok, decide_eq_true_eq, pure, Except.pure, Except.ok.injEq] at h
   obtain ⟨hs, nt, hnt, hmt, ni, hni, hmi, hst⟩ := h
   exact ⟨hs, nt, ni, hnt, hmt, hni, hmi, hst.symm⟩
+
+section
+variable {F : Type} [Mul F] [Zero F] [DecidableEq F]
+
+theorem step_free_ok {cr : Crypto F} {bok : List Nat → Bool} {s s' : St} {sender : Nat} {m : Marker F}
+    (h : freeAlloc cr bok s sender m = .ok s') : step cr bok s (.free sender m) = (s', true) := by simp [step, h]
+
+theorem step_free_err {cr : Crypto F} {bok : List Nat → Bool} {s : St} {sender : Nat} {m : Marker F} {e : Err}
+    (h : freeAlloc cr bok s sender m = .error e) : step cr bok s (.free sender m) = (s, false) := by simp [step, h]
+
+theorem step_add_ok {cr : Crypto F} {bok : List Nat → Bool} {s s' : St} {sender name pk : Nat} {ind tot : Dec}
+    (h : addAssigner s sender name pk ind tot = .ok s') : step cr bok s (.add sender name pk ind tot) = (s', true) := by
+  simp [step, h]
+
+theorem step_add_err {cr : Crypto F} {bok : List Nat → Bool} {s : St} {sender name pk : Nat} {ind tot : Dec} {e : Err}
+    (h : addAssigner s sender name pk ind tot = .error e) : step cr bok s (.add sender name pk ind tot) = (s, false) := by
+  simp [step, h]
+
+end
 
 /-- the redeemed nonces of an assigner (none registered: none). -/
 def noncesOf (s : St) (k : Nat) : List Int := ((aGet s.assigners k).map (·.nonces)).getD []
